@@ -266,10 +266,21 @@ def require_model_ok(ctx, res, what):
 # ------------------------------------------------------------ findings / verdict
 
 def load_known():
-    p = os.path.join(VERIF, "known_findings.json")
-    if not os.path.exists(p):
-        return []
-    return json.load(open(p))
+    """known_findings.json plus known_findings.d/*.json (one finding or a list per file)."""
+    out, seen = [], set()
+    paths = [os.path.join(VERIF, "known_findings.json")]
+    d = os.path.join(VERIF, "known_findings.d")
+    if os.path.isdir(d):
+        paths += sorted(os.path.join(d, f) for f in os.listdir(d) if f.endswith(".json"))
+    for p in paths:
+        if not os.path.exists(p):
+            continue
+        j = json.load(open(p))
+        for f in (j if isinstance(j, list) else [j]):
+            if f.get("id") not in seen:
+                seen.add(f.get("id"))
+                out.append(f)
+    return out
 
 
 def match_known(prop, sig):
